@@ -23,7 +23,8 @@ def Name.render : Name → String
   | .tupleElem i => "__tuple_elem_" ++ toString i
   | .mapValue => "__map_value"
   | .setElem => "__set_elem"
-  | .field f => "__assert_struct_field_" ++ f.toString
+  | .field (.ident i) => "__assert_struct_field_" ++ i.unraw
+  | .field (.index n) => "__assert_struct_field_" ++ toString n
   | .rootValue => "__assert_struct_value"
 
 /-- Prefix operators spliced in front of a value expression. -/
